@@ -12,11 +12,11 @@ WAKE_MS = 150             # timeout None: another thread calls wakeup() after th
 def cases_for(tier):
     timeouts = [0, 40, 400, -1, -2]          # -1: None, -2: Some(Duration::MAX); both ended by a wakeup() from another thread
     timers = [-1, 20, 40, 100, 400, 700, -3, -2, -4]   # -2: Duration::MAX, -3: already expired, -4: 2^64 ms + 100 ms away
-    idles = [0, 1, 2, 3, 4]
+    idles = [0, 1, 2, 3, 4, 5, 6]     # 1-4: idle sources; 5: a queued idle callback; 6: a queued and cancelled idle callback
     out = []
     for t in timeouts:
         for tm in timers:
-            for i in (idles if tier == "thorough" or tm in (-1, 20, -2, -4) else [0, 3]):
+            for i in (idles if tier == "thorough" or tm in (-1, 20, -2, -4) else [0, 3, 5, 6]):
                 out.append("%d %d %d" % (t, tm, i))
     return out
 
